@@ -147,6 +147,14 @@ impl Handler {
                 .collect()
         };
 
+        // All-or-nothing: if one of the frames could not be stored, none is emitted and the
+        // call fails (the handler is unregistered with that error).
+        for output_frame in &output_to_process {
+            let mut probe = output_frame.clone();
+            probe.context_id = self.context_id;
+            store.check_append(&probe)?;
+        }
+
         for mut output_frame in output_to_process {
             let meta_obj = output_frame
                 .meta
